@@ -364,6 +364,11 @@ func (w *World) extractAxisTable(h *ssa.Function, r *Roles) *AxisTable {
 		cmps = append(cmps, cmp{s, ifi})
 		lastIf = ifi
 	})
+	if len(cmps) == 0 {
+		if w.axisTableFromMap(h, r, at) {
+			return at
+		}
+	}
 	for _, c := range cmps {
 		body := c.ifi.Block().Succs[0]
 		arm := &AxisArm{Name: c.name, Pos: c.ifi.Pos()}
@@ -415,6 +420,177 @@ func (w *World) extractAxisTable(h *ssa.Function, r *Roles) *AxisTable {
 		}
 	}
 	return at
+}
+
+// mapEntry is one key/value pair of a package-level map literal.
+type mapEntry struct {
+	Key, Val ssa.Value
+	Pos      token.Pos
+}
+
+// globalMapLiteral reads the entries of `var g = map[K]V{...}` from the package initialiser (the make and the
+// updates go/ssa emits for the literal); ok is false when g is initialised in any other way or updated elsewhere.
+func (w *World) globalMapLiteral(g *ssa.Global) ([]mapEntry, bool) {
+	if g.Pkg == nil {
+		return nil, false
+	}
+	var mm *ssa.MakeMap
+	nStores := 0
+	for _, m := range g.Pkg.Members {
+		fn, ok := m.(*ssa.Function)
+		if !ok {
+			continue
+		}
+		fns := append([]*ssa.Function{fn}, fn.AnonFuncs...)
+		for _, f := range fns {
+			allInstrs(f, func(in ssa.Instruction) {
+				switch x := in.(type) {
+				case *ssa.Store:
+					if x.Addr == ssa.Value(g) {
+						nStores++
+						if f.Name() == "init" {
+							mm, _ = stripConv(x.Val).(*ssa.MakeMap)
+						}
+					}
+				case *ssa.MapUpdate:
+					if ld, ok := x.Map.(*ssa.UnOp); ok && ld.X == ssa.Value(g) {
+						nStores += 2 // updated through the variable after initialisation
+					}
+				}
+			})
+		}
+	}
+	if mm == nil || nStores != 1 {
+		return nil, false
+	}
+	var out []mapEntry
+	for _, rr := range referrers(mm) {
+		switch x := rr.(type) {
+		case *ssa.MapUpdate:
+			if x.Map == ssa.Value(mm) {
+				out = append(out, mapEntry{x.Key, x.Value, x.Pos()})
+			}
+		case *ssa.Store, *ssa.DebugRef:
+		default:
+			if _, isCT := rr.(*ssa.ChangeType); !isCT {
+				return nil, false
+			}
+		}
+	}
+	return out, true
+}
+
+// axisTableFromMap: the table-driven form of the axis dispatch: the handler looks the axis name (the text of the
+// production) up in a package-level map[string]func(NodeSet) Result literal; a hit stores the result of calling
+// the looked-up selector on the incoming node-set, a miss leaves the result untouched.
+func (w *World) axisTableFromMap(h *ssa.Function, r *Roles, at *AxisTable) bool {
+	var lk *ssa.Lookup
+	var g *ssa.Global
+	allInstrs(h, func(in ssa.Instruction) {
+		l, ok := in.(*ssa.Lookup)
+		if !ok || !l.CommaOk {
+			return
+		}
+		ld, ok := l.X.(*ssa.UnOp)
+		if !ok {
+			return
+		}
+		gg, ok := ld.X.(*ssa.Global)
+		if !ok {
+			return
+		}
+		mt, ok := gg.Type().(*types.Pointer).Elem().Underlying().(*types.Map)
+		if !ok {
+			return
+		}
+		if b, ok := mt.Key().Underlying().(*types.Basic); !ok || b.Kind() != types.String {
+			return
+		}
+		if _, ok := mt.Elem().Underlying().(*types.Signature); !ok {
+			return
+		}
+		lk, g = l, gg
+	})
+	if lk == nil {
+		return false
+	}
+	// the key is the text of the production
+	if c, ok := lk.Index.(*ssa.Call); !ok || staticCallee(c) == nil || staticCallee(c).Name() != "GetString" {
+		at.err = append(at.err, "axis table lookup key is not the text of the production")
+	}
+	entries, ok := w.globalMapLiteral(g)
+	if !ok {
+		at.err = append(at.err, "axis table "+g.Name()+" is not a map literal that is never updated")
+		return true
+	}
+	for _, e := range entries {
+		name, ok := constString(e.Key)
+		if !ok {
+			at.err = append(at.err, "axis table entry with a non-constant key")
+			continue
+		}
+		arm := &AxisArm{Name: name, Pos: e.Pos}
+		switch v := stripConv(e.Val).(type) {
+		case *ssa.Function:
+			arm.Callee = v
+		case *ssa.MakeClosure:
+			arm.Callee, _ = v.Fn.(*ssa.Function)
+		}
+		if _, dup := at.Arms[name]; dup {
+			at.err = append(at.err, "axis "+name+" listed twice")
+		}
+		at.Arms[name] = arm
+	}
+	// hit: the looked-up function is called on the incoming node-set and the result stored; miss: nothing happens
+	var okEx, fnEx ssa.Value
+	for _, rr := range referrers(lk) {
+		if ex, isEx := rr.(*ssa.Extract); isEx {
+			if ex.Index == 1 {
+				okEx = ex
+			} else {
+				fnEx = ex
+			}
+		}
+	}
+	hitStores, missClean := false, true
+	allInstrs(h, func(in ssa.Instruction) {
+		hit, miss := false, false
+		for _, a := range guardAtoms(in.Block()) {
+			if a.V == okEx {
+				if a.Pol {
+					hit = true
+				} else {
+					miss = true
+				}
+			}
+		}
+		switch x := in.(type) {
+		case *ssa.Store:
+			fa, isFA := x.Addr.(*ssa.FieldAddr)
+			if !isFA || fa.Field != r.CtxResultField {
+				return
+			}
+			if c, isCall := stripConv(x.Val).(*ssa.Call); isCall && c.Call.Value == fnEx && hit {
+				hitStores = true
+			} else if !hit {
+				missClean = false
+			}
+		case *ssa.Call:
+			if miss {
+				if sc := staticCallee(x); sc != nil && fnPkgKey(sc) == "exec" {
+					missClean = false
+				}
+			}
+		}
+	})
+	if !hitStores {
+		at.err = append(at.err, "the looked-up selector's result is not stored as the context result on a hit")
+	}
+	at.DefaultOK = missClean && okEx != nil
+	if !at.DefaultOK {
+		at.DefaultWhy = "a miss in the axis table stores a result or calls a selector"
+	}
+	return true
 }
 
 // cursorMethodsReached: names of store.Cursor interface methods invoked by fn or by exec-package
